@@ -300,9 +300,9 @@ def main(chk, replay=None):
         lap("mc_req")
         evidence["model_states_per_pc"] = pcs
         evidence["model_closed_states_per_site"] = sites
-        missing = [x for x in ("select", "parse", "lookup", "entry", "write", "catchP", "catchS", "escape", "finish", "closed")
-                   if not pcs.get(x)]
-        if missing and defects:
+        # (catchS / escape are reachable only through recorded defects: not required)
+        missing = [x for x in ("select", "parse", "lookup", "entry", "write", "catchP", "finish", "closed") if not pcs.get(x)]
+        if missing:
             raise core.MachineryError("C03: control locations never reached in MC_C03: %s" % missing)
         by_hl = {}
         for rid in sorted(cases):
